@@ -48,12 +48,14 @@ def points(rng, n, d, mag=8.0, short=0.8):
     return [[real(rng, -mag, mag, short, 3) for _ in range(d)] for _ in range(n)]
 
 
-def bc_vals(rng, order, d, mag=4.0, short=0.8, zero_prob=0.15):
+def bc_vals(rng, order, d, mag=4.0, short=0.8, zero_prob=0.15, pattern=None):
     """6 blocks v0 a0 j0 vn an jn, each of d values; blocks the order does not use are still filled
-    (the code must ignore them)"""
+    (the code must ignore them). pattern: random | rest_start | rest_end | rest_both (whole boundary state exactly zero)"""
+    pattern = pattern or rng.choices(['random', 'rest_start', 'rest_end', 'rest_both'], [0.55, 0.15, 0.15, 0.15])[0]
     out = []
-    for _ in range(6):
-        if rng.random() < zero_prob:
+    for b in range(6):
+        rest = (pattern in ('rest_start', 'rest_both') and b < 3) or (pattern in ('rest_end', 'rest_both') and b >= 3)
+        if rest or (pattern == 'random' and rng.random() < zero_prob):
             out.append([0.0] * d)
         else:
             out.append([real(rng, -mag, mag, short, 3) for _ in range(d)])
